@@ -96,6 +96,19 @@ def run(ctx):
         ctx.check(len(excused) >= 1 and len(final) >= 1, "C07.final.shape", f.path, "accepting exits: %d on failed-reconstruction arms, %d final" % (len(excused), len(final)), key="C07.final.shape")
         if final:
             require_guard(ctx, f, Cmp(["call:*::root"], [["call:*::row_root", "call:*::column_root"], "a1.index"], pass_op="Ne", name="recomputed root != committed root"), "C07.final", targets=final)
+        # rebuilding the axis: only shares of the ORIGINAL data square carry a namespace prefix. The
+        # attempt to parse one (whose failure is an "encoding is bad" exit) is made only for the first
+        # half of an axis that itself lies in the first half of the square - for a parity row/column
+        # every leaf is committed under PARITY_SHARE, and parsing parity bytes as a namespace turns an
+        # honest block into a "fraud".
+        enc = f.call_sites(["leopard_codec::encode"])
+        if enc:
+            after = f.reachable_from([enc[0]])
+            nsr = [b for b in f.call_sites(["*Namespace::from_raw"]) if b in after]
+            ctx.check(len(nsr) >= 1, "C07.rebuild.ns-site", f.path, "namespace parse in the rebuild loop: %d" % len(nsr), key="C07.rebuild.ns-site")
+            for b in nsr:
+                require_guard(ctx, f, Cmp(["a1.index"], ["call:*::square_width", "lit:2"], pass_op="Lt", name="axis index < ods width (the axis is in the original-data half)"), "C07.rebuild.axis-half", targets=[b], start=[enc[0]])
+                require_guard(ctx, f, Cmp(["call:*Iterator*::next"], ["call:*::square_width", "lit:2"], pass_op="Lt", name="share position < ods width"), "C07.rebuild.share-half", targets=[b], start=[enc[0]])
     n = ctx.anchor("lumina_node::p2p::Worker::<B, S>::on_bad_encoding_fraud_sub_message")
     if n:
         trig = n.call_sites(["*Token::trigger"])
